@@ -238,7 +238,7 @@ PROPS = {
         ['independence of the two copies is value semantics of emap::Map::clone (trusted; Kani audit in the thorough tier)'],
         extra=dict(classify=classify_config_sensitive(SENSITIVE_NONDET), classify_exempt=('clone',))),
     'C18': dict(
-        units=['U_xml', 'U_hex'], level='proof',
+        units=['U_xml', 'U_hex', 'U_hexfmt'], level='proof',
         technique='contract-based deductive verification (Verus) of the real to_xml() and to_dot(): the element tree handed to '
                   'the XML builder equals xml_doc(abstract graph) (one <v> per present vertex, ascending, edges in label '
                   'order, data if any); to_dot() emits one node line per present vertex and one line per edge; xml-builder, '
@@ -288,7 +288,7 @@ PROPS = {
         extra=dict(units=['U_ops', 'U_model', 'U_slice'], classify=classify_config_sensitive(SENSITIVE_SIZE + SENSITIVE_NONDET))),
 
     'C20': dict(
-        units=['U_debug', 'U_display', 'U_inspect', 'U_hex'], level='proof',
+        units=['U_debug', 'U_display', 'U_inspect', 'U_hex', 'U_hexfmt'], level='proof',
         technique='contract-based deductive verification (Verus) of the real Debug::fmt, Display::fmt, v_print() of src/debug.rs '
                   'and inspect()/inspect_v() of src/inspect.rs: the text Debug/v_print write is a function of the abstract '
                   'graph (one line per present vertex in ascending id order with its id, one attribute per edge with label '
@@ -319,7 +319,7 @@ PROPS = {
                    'Debug; the characters of every output (format! is an uninterpreted function of its literal and of the '
                    'Display texts of its arguments, T9; format!("{}", x) is the Display text of x). Trusted: Verus/Z3; '
                    '<[String]>::join as an uninterpreted function of parts and separator, Formatter::write_str appends, '
-                   'Display of Hex is print() (proved a function of the bytes in U_hex), std `impl Debug for &T` forwards to T, '
+                   'std `impl Debug for &T` forwards to T, '
                    'std HashSet<usize> (new/insert/contains over a ghost set), itertools sorted() on the edge iterator (a '
                    'permutation in key order). Edge targets below the capacity and no edge from a vertex to itself are '
                    'preconditions (invariants of every history built through the documented API: lemmas L13).',
@@ -500,7 +500,7 @@ PROPS = {
                      'the source graph was built through the API (wf, edge targets in range, no self-loops: lemmas L13)'],
     ),
     'C15': dict(
-        units=['U_hex'], level='proof',
+        units=['U_hex', 'U_hexfmt'], level='proof',
         technique='contract-based deductive verification (Verus on extracted src/hex.rs) + complete loop-free Kani '
                   'harnesses for Index/IndexMut/eq/i64/f64 on the real file',
         level_text='Unbounded proof over the abstract byte string for the inherent accessors (all lengths, both '
